@@ -657,9 +657,36 @@ def wrappers_forward(ctx, F, rule, sfx):
         me = I.Sym(nf.sym_atom('fi'), ty.lstrip('&').replace('mut ', '').strip())
         v, _ = ip.call_body(b, [ip.ref_to(me, ty, mut=True) if ty.startswith('&') else me])
         ctx.evaluations += ip.evaluations
+        # field by field: integral = finalize(old integral), every other field the old one
+        fin = 'call:voronoi::integrals::FaceIntegral::finalize(%s)'
+
+        def same_but_integral(new, old, adt_path, depth=0):
+            a = F.adt(adt_path.split('<')[0], required=False)
+            if a is None or depth > 2:
+                return ['%s: unknown record' % adt_path]
+            bad = []
+            for f in a['variants'][0]['fields']:
+                try:
+                    got = I.frozen(I.get_field(new, f['name']))
+                except Exception:
+                    bad.append('%s unreadable' % f['name'])
+                    continue
+                exp = '%s.%s' % (old, f['name'])
+                inner = F.adt(f['ty'].split('<')[0], required=False)
+                if f['name'] == 'integral':
+                    if repr(got).replace(' ', '') != fin % exp:
+                        bad.append('integral = %s' % repr(got)[:80])
+                elif inner is not None and inner.get('kind') == 'Struct' and any(g['name'] == 'integral' for g in inner['variants'][0]['fields']):
+                    bad += same_but_integral(got, exp, f['ty'], depth + 1)
+                elif repr(got).replace(' ', '') != exp:
+                    bad.append('%s = %s' % (f['name'], repr(got)[:80]))
+            return bad
         txt = repr(I.frozen(v)).replace(' ', '')
-        # FaceIntegrator{integral: finalize(fi.integral), ..fi}   /   VoronoiFace{inner: ..{integral: finalize(fi.inner.integral), ..fi.inner}, ..fi}
-        ok = bool(re.match(r'^[A-Za-z<>_:]+\{(?:inner:[A-Za-z<>_:]+\{)?integral:call:voronoi::integrals::FaceIntegral::finalize\(fi(?:\.inner)?\.integral\),\.\.fi(?:\.inner\},\.\.fi)?\}$', txt))
+        rty = ty.lstrip('&').replace('mut ', '').strip()
+        diffs = same_but_integral(v, 'fi', rty)
+        ok = not diffs
+        if diffs:
+            txt = '; '.join(diffs)[:200]
         short_nm = nm.split('::', 1)[1]
         ctx.check(rule, 'finalizes-integral-only:%s%s' % (short_nm, sfx), ok, txt[:160], 'the same record with integral = integral.finalize()', where(b), key_extra='fwd-finalize')
 
